@@ -3,6 +3,7 @@
 -/
 import Amqp.Reasm
 import Theorems.Chunks
+import Theorems.TxnRoute
 
 namespace Amqp.Reasm
 
